@@ -70,6 +70,9 @@ func (m *Module) HandleDagazQuadSample(ctx context.Context, msg hwebsocket.Msg) 
 			WithTag("msg_type", msg.Type)
 	}
 
+	m.state.Mutex.Lock()
+	defer m.state.Mutex.Unlock()
+
 	for _, newQuad := range newQuadSample.Samples {
 		quad := NewQuadFromProtobuf(newQuad)
 		if !quad.Center.IsFinite() || !quad.Extents.IsFinite() {
@@ -96,6 +99,7 @@ func (m *Module) HandleDagazGetGroundPlane(ctx context.Context, respond hwebsock
 	}
 
 	ray := NewRayFromProtobuf(req.Ray)
+	m.state.Mutex.Lock()
 	var quadHit *Quad
 	if ray.From.IsFinite() && ray.To.IsFinite() {
 		quadHit, _ = m.state.SpatialPartition.IntersectQuad(ray)
@@ -110,6 +114,7 @@ func (m *Module) HandleDagazGetGroundPlane(ctx context.Context, respond hwebsock
 		}
 	}
 	sampleGroundQuad := quadHit.ToProtobuf()
+	m.state.Mutex.Unlock()
 
 	respond.Send(&dagazpb.DagazGetGroundPlaneResponse{
 		Type:      dagazpb.MsgType_MSG_TYPE_DAGAZ_GET_GROUND_PLANE_RESPONSE,
@@ -133,6 +138,7 @@ func (m *Module) HandleDagazGetRegion(ctx context.Context, respond hwebsocket.Re
 			WithTag("msg_type", msg.Type)
 	}
 
+	m.state.Mutex.Lock()
 	var regionQuads []*Quad
 	if min, max := NewVector3fFromProtobuf(req.Min), NewVector3fFromProtobuf(req.Max); min.IsFinite() && max.IsFinite() {
 		regionQuads = m.state.SpatialPartition.GetRegion(min, max)
@@ -141,6 +147,7 @@ func (m *Module) HandleDagazGetRegion(ctx context.Context, respond hwebsocket.Re
 	for i := 0; i < len(regionQuads); i++ {
 		regionQuadsProtobuf[i] = regionQuads[i].ToProtobuf()
 	}
+	m.state.Mutex.Unlock()
 
 	respond.Send(&dagazpb.DagazGetRegionResponse{
 		Type:      dagazpb.MsgType_MSG_TYPE_DAGAZ_GET_REGION_RESPONSE,
@@ -164,7 +171,9 @@ func (m *Module) HandleDagazGetDebugInfo(ctx context.Context, respond hwebsocket
 			WithTag("msg_type", msg.Type)
 	}
 
+	m.state.Mutex.Lock()
 	debugInfo := m.state.SpatialPartition.GetDebugInfo()
+	m.state.Mutex.Unlock()
 
 	respond.Send(&dagazpb.DagazGetDebugInfoResponse{
 		Type:           dagazpb.MsgType_MSG_TYPE_DAGAZ_GET_DEBUG_INFO_RESPONSE,
